@@ -67,6 +67,7 @@ type Contract struct {
 	Allocates    bool
 	KeepOwnMaps  bool // "keeps ownmaps": maps of types written only by this package keep their contents
 	Assumes      []string
+	Refined      bool
 	Src          string
 }
 
@@ -740,6 +741,10 @@ func (db *ContractDB) parseLines(lines []srcLine, pkg *types.Package, trusted bo
 				cur.ChanSafeTags = tags
 			case "trusted":
 				cur.Trusted = true
+			case "refined":
+				// on an interface method contract: every contracted implementation in the module is checked against the
+				// ensures clauses of this contract (obligation kind "refine")
+				cur.Refined = true
 			case "assumes":
 				// assumes <text>: an assumption the contract rests on, listed in the evidence of every check that uses it
 				cur.Assumes = append(cur.Assumes, strings.TrimSpace(rest))
